@@ -126,6 +126,11 @@ class Consumers:
     def __init__(self, name, nbins=14, with_serde=True, reader_route=False):
         self.name = name
         self.reader_route = reader_route   # also instantiate the from_reader route for responses
+        # one user at a time per consumer workspace (C01 and C03 share theirs): checks may be started concurrently
+        import fcntl
+        os.makedirs(os.path.join(vlib.WORK, "consumers"), exist_ok=True)
+        self._lock = open(os.path.join(vlib.WORK, "consumers", name + ".lock"), "w")
+        fcntl.flock(self._lock, fcntl.LOCK_EX)      # released when the process ends
         self.root = os.path.join(vlib.WORK, "consumers", name)
         self.nbins = nbins
         self.cases = {}        # case id -> dict(source, op, kinds)
